@@ -22,7 +22,7 @@ RULE = ('seeded random pva: |lat|<=85, lon incl. the +-180 region, alt 0..20 km,
         ' Round 4: the output transform of a 4-row Trajectory table against the per-row matrices (and its 2-D zero rows); closed ends of the domain (|lat| = 85, |pitch| = 85, zero / 300 m/s velocity, cardinal roll / heading).')
 ASSUMPTIONS = ['second order is decided by extracting the first-order coefficient of the residual (Richardson on rungs 1/4, 1/8, 1/16) '
                'and requiring it below 1e-5 of the linear term; log-log slopes are recorded as evidence only']
-REQUIRED_OBS = ['table_form_compared', 'pva_labels_permuted', 'reused_model_and_pva_object', 'tiny_corrections', 'left_inverse', 'correct_ladder', 'perturb_correct_ladder', 'twoD_rows_zero', 'twoD_alt_vd_frozen',
+REQUIRED_OBS = ['difference_angles_in_range_checked', 'table_form_compared', 'pva_labels_permuted', 'reused_model_and_pva_object', 'tiny_corrections', 'left_inverse', 'correct_ladder', 'perturb_correct_ladder', 'twoD_rows_zero', 'twoD_alt_vd_frozen',
                 'ladder_groups_above_floor']
 REQUIRED_CLASSES = {'all': ['generic3d', 'generic2d', 'steep3d', 'steep2d', 'south_west', 'slow']}
 EPS = np.finfo(float).eps
@@ -73,7 +73,7 @@ def gen_pva(rng, cls):
         elif k == 1 and 'steep' in cls:
             pitch = float(erng.choice([-85.0, 85.0]))
         elif k == 2:
-            roll, head = float(erng.choice([-180.0, 180.0, 0.0, 90.0, -90.0])), float(erng.choice([-180.0, 180.0, 0.0, 90.0, -90.0]))
+            roll, head = float(erng.choice([-180.0, 180.0, 0.0, 90.0, -90.0, 179.99, -179.99])), float(erng.choice([-180.0, 180.0, 0.0, 90.0, -90.0, 179.99, -179.99]))
         elif k == 3:
             v = np.array([0.0, 0.0, 0.0]) if erng.random() < 0.5 else 300.0 * np.eye(3)[int(erng.integers(0, 3))] * float(erng.choice([-1, 1]))
         elif k == 4:
@@ -236,6 +236,12 @@ def run_case(case):
                 fail('twoD_frozen', f'2-D correction changed altitude or VD: alt {pva.alt!r} -> {corrected.alt!r}, '
                      f'VD {pva.VD!r} -> {corrected.VD!r}')
         d = transform.compute_state_difference(pva, corrected)   # INS - corrected
+        ang_ = d[RPH].values.astype(float)
+        bump('difference_angles_in_range_checked')
+        if (np.abs(ang_) > 180.0).any():
+            fail('angle_range', f'the difference of the state and its correction reports angle differences {ang_.tolist()} outside (-180, 180] (roll {pva.roll!r} -> {corrected.roll!r}, '
+                 f'heading {pva.heading!r} -> {corrected.heading!r})')
+            return dict(violations=out, obs=obs)
         r = d[OUT].values.astype(float) - s * lin
         r[6:] = wrap180(r[6:])
         R.append(r)
